@@ -26,6 +26,10 @@ func c04Run1(banned bool, permanent bool) *c04Run {
 	// another, already logged-in client
 	r.otherConn = &vRecConn{}
 	r.other = &ClientConn{Connection: r.otherConn, Server: srv, Account: &Account{Login: "o"}, UserName: []byte("o")}
+	if mgr, ok := srv.ClientMgr.(*MemClientMgr); ok && vBool("other_client_holds_id_zero") {
+		// the 65536th connection since start-up holds wire ID 0 - the value an unauthenticated connection's ID field has
+		mgr.nextClientID.Store(65535)
+	}
 	srv.ClientMgr.Add(r.other)
 	// a handler for the request the peer appends after its login attempt
 	srv.HandleFunc(TranGetUserNameList, func(cc *ClientConn, t *Transaction) []Transaction {
